@@ -34,6 +34,6 @@ Absorb(A, blk) == TLCEval([x \in Idx |-> TLCEval([y \in Idx |-> IF x + 5*y < 17 
 RECURSIVE Sponge(_,_)
 Sponge(A, m) == IF Len(m) = 0 THEN A ELSE Sponge(F(Absorb(A, SubSeq(m,1,136)), 1), SubSeq(m,137,Len(m)))
 LaneByte(a, k) == a[8*k] + 2*a[8*k+1] + 4*a[8*k+2] + 8*a[8*k+3] + 16*a[8*k+4] + 32*a[8*k+5] + 64*a[8*k+6] + 128*a[8*k+7]
-Keccak256(msg) == LET A == Sponge([x \in Idx |-> [y \in Idx |-> ZeroLane]], Pad(msg))
-                  IN [n \in 1..32 |-> LaneByte(A[((n-1) \div 8) % 5][((n-1) \div 8) \div 5], (n-1) % 8)]
+Keccak256(msg) == LET A == TLCEval(Sponge([x \in Idx |-> [y \in Idx |-> ZeroLane]], Pad(msg)))
+                  IN TLCEval([n \in 1..32 |-> LaneByte(A[((n-1) \div 8) % 5][((n-1) \div 8) \div 5], (n-1) % 8)])
 =============================================================================
